@@ -1,6 +1,7 @@
 import OrsoVerif.Model.PyVal
 import OrsoVerif.Model.RowCodec
 import OrsoVerif.Model.RowStream
+import OrsoVerif.Model.RowObject
 /-! Driver glue for C01: pack / header / encode / decode / frame / bigframe / mutants / split / stream. -/
 namespace Drv.C01
 open RowBytes MsgPack RowCodec RowStream
@@ -45,6 +46,20 @@ def mutRes (base : PyVal) (r : RowBytes.Bytes) : List PyVal → Option (List PyV
       let x := decRes (decodeRow d)
       some ((if x = base then .str "same" else x) :: out)
     | _, _ => none
+
+/-- the calls of an `objseq` case: `["a", ts]` = `as_bytes` with that clock, `["n", ts]` = `nbytes()` -/
+def objOps : List PyVal → Option (List RowObject.Op)
+  | [] => some []
+  | .list [.str "a", .int ts] :: rest => if ts < 0 then none else (objOps rest).map (RowObject.Op.asBytes ts.toNat :: ·)
+  | .list [.str "n", .int ts] :: rest => if ts < 0 then none else (objOps rest).map (RowObject.Op.nbytes ts.toNat :: ·)
+  | _ => none
+
+def objRes : RowObject.Res → PyVal
+  | .record (.ok r) => .list [.str "ok", .bytes r]
+  | .record (.error e) => encErr e
+  | .size (.ok (some n)) => .list [.str "ok", .int n]
+  | .size (.ok none) => .list [.str "ok", .none]
+  | .size (.error e) => encErr e
 
 /-- Run-length compression of a list of outcomes. -/
 def runs : List PyVal → List (PyVal × Nat)
@@ -122,6 +137,29 @@ def handle (op : String) (args : List PyVal) : Option (List PyVal) :=
     match decodeStream data with
     | .ok rows => some [.list [.str "ok", .list (rows.map fun r => .list (r.map item))]]
     | .error e => some [decErr e]
+  -- one row object (`d`: has a `__dict__`) and a sequence of calls on it: the machine made of the translated
+  -- `Row.as_bytes` / `Row.nbytes` (theorem `object_history_irrelevant`)
+  | "objseq", [.bool d, .list row, .list ops] =>
+    match objOps ops with
+    | some os => some [.list ((RowObject.run d row none os).map objRes)]
+    | none => none
+  -- `cls(data)`: the translated `Row.__new__` on a tuple (`["t", items]`) or a dictionary (`["d", exact, {…}]`);
+  -- `fields` = `cls._fields` or None
+  | "rownew", [fields, arg] =>
+    let fs : Option (Option (List String)) := match fields with
+      | .none => some none
+      | .list xs => (xs.mapM (fun (x : PyVal) => match x with | PyVal.str t => some t | _ => none)).map some
+      | _ => none
+    let a : Option RowGlue.NewArg := match arg with
+      | .list [.str "t", .list items] => some (.tuple items)
+      | .list [.str "d", .bool e, .dict es] => some (.dict e es)
+      | _ => none
+    match fs, a with
+    | some f, some x =>
+      match Gen.RowFns.row_new f x with
+      | .ok items => some [.list [.str "ok", .list items]]
+      | .error e => some [.list [.str "err", .str e]]
+    | _, _ => none
   | _, _ => none
 
 end Drv.C01
